@@ -244,8 +244,8 @@ def run_case(case, rec):
 
 
 def shards(tier):
-    n1 = 300 if tier == "quick" else 6000
-    n2 = 100 if tier == "quick" else 2500
+    n1 = 600 if tier == "quick" else 6000
+    n2 = 300 if tier == "quick" else 2500
     return [{"kind": "hyp", "part": "emit", "i": i, "n": n1} for i in range(8)] + \
            [{"kind": "hyp", "part": "verdict", "i": i, "n": n2} for i in range(8)]
 
